@@ -8,6 +8,9 @@ package c02
 //
 //	T-PMT  the first two packets are PAT, PMT and the PMT lists exactly the tracks of the joined incarnation that
 //	       lal carries in TS (AVC / HEVC video, AAC, Opus; G.711 is not carried);
+//	       (only the tracks lal's start-up probe had seen are announced: the video of an audio-first stream whose first
+//	       video message comes after 16 other messages is carried without being listed - not demanded, lal writes
+//	       PAT/PMT once per incarnation - and judged like an announced track);
 //	T-MAP  every unit is made of published messages of the joined incarnation; per track the published indices
 //	       strictly increase (nothing twice, nothing reordered);
 //	D2     a key frame carries in-band the parameter sets in force when it was published; every AAC frame carries an
@@ -100,7 +103,13 @@ func isKeyNal(codec string, n []byte) bool {
 // processing releases everything queued so far (both an audio and a video message seen, or 16 messages queued).
 // -1: the probe never ended while the generated messages were published (the stream is flushed at the end).
 func drainIndex(P []pmsg, s0 int) int {
-	seenA, seenV := false, false
+	d, _, _ := probe(P, s0)
+	return d
+}
+
+// probe also tells which tracks the probe had seen when it ended (these are the tracks the PMT announces; a track
+// that starts later is carried on its PID without being announced - lal writes PAT/PMT once per incarnation).
+func probe(P []pmsg, s0 int) (d int, seenA, seenV bool) {
 	n := 0
 	for i := s0; i < len(P) && P[i].inc == P[s0].inc; i++ {
 		n++
@@ -111,10 +120,10 @@ func drainIndex(P []pmsg, s0 int) int {
 			seenV = true
 		}
 		if (seenA && seenV) || n >= 16 {
-			return i
+			return i, seenA, seenV
 		}
 	}
-	return -1
+	return -1, seenA, seenV
 }
 
 func checkTsConsumer(c Case, P []pmsg, ci int, spec Cons, body []byte, j int) *pbt.Violation {
@@ -165,11 +174,21 @@ func checkTsConsumer(c Case, P []pmsg, ci int, spec Cons, body []byte, j int) *p
 		}
 	}
 	var want []string
-	if cd.Video != "" {
+	_, probeA, probeV := probe(P, s0)
+	if cd.Video != "" && probeV {
 		want = append(want, cd.Video)
 	}
-	if cd.Audio == "aac" || cd.Audio == "opus" {
+	if (cd.Audio == "aac" || cd.Audio == "opus") && probeA {
 		want = append(want, cd.Audio)
+	}
+	if cd.Video != "" && !probeV {
+		// the video track started behind the start-up probe: it is not announced, its units arrive on a PID of their own
+		for _, pes := range res.PES {
+			if !hasA || pes.PID != apid {
+				vpid, hasV = pes.PID, true
+				break
+			}
+		}
 	}
 	if fmt.Sprint(got) != fmt.Sprint(want) {
 		return pbt.V("D1/pmt-tracks/ts", "%s: the PMT lists %v, incarnation %d carries %v (codecs %+v)", who, got, inc, want, cd)
